@@ -40,6 +40,7 @@ def check(ctx):
   ctx.rule('C08.R5', 'ping: every ping arms a timeout helper that shuts the connection down unless the ping succeeded; ThriftMux shutdown fails the outstanding ping')
   ctx.decline('behaviour of real sockets/kernel and every I/O index x fault kind as executions are not decided')
   r1(ctx)
+  deliverers(ctx)
   c02.r3(ctx)
   r2(ctx)
   r3(ctx)
@@ -55,6 +56,19 @@ def check(ctx):
   from . import c02 as _c02
   ctx.rule('C02.R4', 'shared with C02: writer and readers of the tag map agree on the entry layout (shutdown must be able to answer every entry)')
   _c02.r4(ctx)
+
+
+def deliverers(ctx):
+  """The in-flight request of the serial transport is answered by the transaction that owns it (or refused before it starts): Close / _Fault / _Shutdown do not
+  answer it themselves."""
+  prog = ctx.prog
+  c = prog.cls(TS, 'SocketTransportSink')
+  why = ('every connection fault runs `except: self._Fault(ex)` -> Close() from inside the transaction, which then answers the request with the real cause: a close path that '
+         'answers the stored stack as well delivers two completions for one call')
+  who = sorted(set(m.name for m in c.methods.values() for x in ast.walk(m.node)
+                   if isinstance(x, ast.Call) and isinstance(x.func, ast.Attribute) and x.func.attr.startswith('AsyncProcessResponse')))
+  ctx.ob('C08.R1', c, 'only the request method, the transaction and its reply handler answer a call', set(who) <= {'AsyncProcessRequest', '_AsyncProcessTransaction', '_ProcessReply'} and len(who) >= 2,
+         'the call is answered from %s' % who, why)
 
 
 def r1(ctx):
